@@ -16,6 +16,17 @@ struct Budget {
     max: u64,
 }
 
+/// Shadow build: after a panic unwound inside the simulation nothing in this process can be
+/// trusted any more (see sim::PANIC_SEEN); the candidate is rejected and minimisation ends with
+/// the best scenario found so far.
+fn tainted(b: &mut Budget) -> bool {
+    if cfg!(feature = "shadow") && crate::sim::panic_seen() {
+        b.execs = b.max;
+        return true;
+    }
+    false
+}
+
 fn switches(choices: &[u16]) -> usize {
     choices.windows(2).filter(|w| w[0] != w[1]).count()
 }
@@ -27,6 +38,9 @@ fn fails(sc: &Scenario, class: &str, old: &[u16], search: u64, b: &mut Budget) -
         return None;
     }
     let rp = c18::reference_phase(sc);
+    if tainted(b) {
+        return None;
+    }
     if rp.violations.iter().any(|v| v.class == class) {
         return Some((vec![], rp.violations.clone()));
     }
@@ -45,6 +59,9 @@ fn fails(sc: &Scenario, class: &str, old: &[u16], search: u64, b: &mut Budget) -
         }
         b.execs += 1;
         let (v, st) = c18::execute(&rp, c, false);
+        if tainted(b) {
+            return best;
+        }
         if v.iter().any(|x| x.class == class) {
             let better = match &best {
                 None => true,
@@ -302,6 +319,9 @@ fn minimise_c18(rf: &ReplayFile, max_execs: u64) -> ReplayFile {
                 let rp = c18::reference_phase(&sc);
                 b.execs += 1;
                 let (v, st) = c18::execute(&rp, &SchedSpec::List { choices: cand }, false);
+                if tainted(&mut b) {
+                    break 'sched;
+                }
                 if v.iter().any(|x| x.class == class) && (switches(&st.choices) < switches(&choices) || st.choices.len() < choices.len()) {
                     choices = st.choices.clone();
                     viol = v;
